@@ -307,7 +307,7 @@ pub fn run(args: &Args) {
     let op = args.work.join("py_threads_out.json");
     std::fs::write(&sp, serde_json::to_vec(&streams).unwrap()).unwrap();
     let _ = std::fs::remove_file(&op);
-    let st = Command::new("python3").arg(format!("{}/pyharness/run_py_threads.py", root)).arg(format!("{}/sudachi.json", pres)).arg(&pres).arg(&sp).arg(&op).env("PYTHONPATH", &pypkg).output();
+    let st = Command::new("timeout").arg("-k").arg("10").arg("900").arg("python3").arg(format!("{}/pyharness/run_py_threads.py", root)).arg(format!("{}/sudachi.json", pres)).arg(&pres).arg(&sp).arg(&op).env("PYTHONPATH", &pypkg).output();
     let id = sink.case_rust_only(json!({"kind": "python-threads", "threads": nthreads, "texts_per_thread": streams[0].len()}), true);
     sink.tag("python-threads");
     match st {
